@@ -360,7 +360,42 @@ def _write_if_changed(p, text):
         f.write(text)
 
 
+def _kani_cache_key(crate_dir, harness, extra):
+    h = hashlib.sha256()
+    for f in ("src/lib.rs", "Cargo.toml"):
+        try:
+            h.update(open(os.path.join(crate_dir, f), "rb").read())
+        except OSError:
+            pass
+    h.update(("|%s|%s|kani-0.68" % (harness, extra)).encode())
+    return h.hexdigest()
+
+
 def run_kani_harness(crate_dir, harness, timeout=600, playback=False, extra=None, target_dir=None):
+    """Verdicts are memoised on the exact text they were computed from (rendered crate + harness + arguments): a second
+    property check in the same sandbox that needs the same harness on byte-identical extracted text reuses the verdict;
+    any change to the extracted /repo text, the contracts or the harness changes the key."""
+    cache_dir = os.path.join(BUILD, "cache")
+    key = _kani_cache_key(crate_dir, harness, extra)
+    cpath = os.path.join(cache_dir, key + ".json")
+    if not playback and os.environ.get("VERIF_NO_CACHE") != "1" and os.path.exists(cpath):
+        try:
+            r = json.load(open(cpath))
+            r["cached"] = True
+            return r
+        except Exception:
+            pass
+    r = _run_kani_harness(crate_dir, harness, timeout, playback, extra, target_dir)
+    if not playback and r.get("status") in ("ok", "failed"):
+        os.makedirs(cache_dir, exist_ok=True)
+        try:
+            json.dump({k: v for k, v in r.items() if k != "full_output"}, open(cpath, "w"))
+        except Exception:
+            pass
+    return r
+
+
+def _run_kani_harness(crate_dir, harness, timeout=600, playback=False, extra=None, target_dir=None):
     cmd = ["cargo", "kani", "-Z", "function-contracts", "-Z", "stubbing", "--harness", (harness if "::" in harness else "verif::" + harness), "--exact"]
     if playback:
         cmd += ["-Z", "concrete-playback", "--concrete-playback=print"]
